@@ -345,6 +345,13 @@ class Interp:
             return TOP
         if "zst" in c:
             return UNIT
+        if c.get("opaque") == "indirect" and isinstance(c.get("repr"), str) and c["repr"].startswith('"') and c.get("ty", "").endswith("str"):
+            import ast, re as _re2
+            try:
+                r = _re2.sub(r"\\u\{([0-9a-fA-F]+)\}", lambda m: "\\U%08x" % int(m.group(1), 16), c["repr"])
+                return ("s", ast.literal_eval(r))
+            except Exception:
+                return TOP
         if c.get("opaque") == "indirect" and isinstance(c.get("repr"), str) and c["repr"].startswith('b"'):
             import ast
             try:
